@@ -85,5 +85,5 @@ Check == idx > 0 =>
                doc |-> Doc, from |-> From, to |-> To, t |-> fm.t, plus |-> fm.plus, mul |-> fm.mul, adm |-> fm.adm]
   IN /\ Emit => PrintT("CASE " \o ToJson(case))
      /\ Named(\A n \in 0..4 : AdmissibleText(TextOf(fm, n), Doc) = Expected(fm, n)
-                               \/ PrintT(<<"LEMMA", fm.f, n, AdmissibleText(TextOf(fm, n), Doc)>>) , "SweepLemma")
+                               \/ ~PrintT(<<"LEMMA", fm.f, n, AdmissibleText(TextOf(fm, n), Doc)>>) , "SweepLemma")
 =============================================================================
